@@ -146,13 +146,16 @@ type Party struct {
 	Rec      *Recorder
 	Watcher  *local.Watcher
 	View     *View
+	// CloseHung is set when Client.Close did not return within the bound
+	CloseHung atomic.Bool
 
-	mu        sync.Mutex
-	chans     map[channel.ID]*client.Channel
-	newChan   chan *client.Channel
-	adjEvents []channel.AdjudicatorEvent
-	watchErrs []string
-	noWatch   bool
+	mu         sync.Mutex
+	subWatched map[channel.ID]bool
+	chans      map[channel.ID]*client.Channel
+	newChan    chan *client.Channel
+	adjEvents  []channel.AdjudicatorEvent
+	watchErrs  []string
+	noWatch    bool
 
 	// OnProposal / OnUpdate are the user handlers; they may be replaced by the
 	// scenario before the corresponding message arrives.
@@ -179,7 +182,7 @@ func (e *Env) NewParty(name string, keyIdx int, watch bool) (*Party, error) {
 	} else {
 		acc = gen.Acc(keyIdx)
 	}
-	p := &Party{Name: name, Env: e, Acc: acc, chans: map[channel.ID]*client.Channel{},
+	p := &Party{Name: name, Env: e, Acc: acc, chans: map[channel.ID]*client.Channel{}, subWatched: map[channel.ID]bool{},
 		newChan: make(chan *client.Channel, 64), noWatch: !watch, handleDone: make(chan struct{})}
 	// not NewRestoredWallet: that locks the account until a channel is created, but the
 	// harness also signs with keys of parties that never open a channel
@@ -276,7 +279,41 @@ func (w hookWatcher) StartWatchingSubChannel(ctx context.Context, parent channel
 	if hk := w.p.Env.WatchStartHook; hk != nil {
 		hk(w.p, s.Params.ID())
 	}
-	return w.Watcher.StartWatchingSubChannel(ctx, parent, s)
+	pub, sub, err := w.Watcher.StartWatchingSubChannel(ctx, parent, s)
+	if err == nil {
+		w.p.mu.Lock()
+		w.p.subWatched[s.Params.ID()] = true
+		w.p.mu.Unlock()
+	}
+	return pub, sub, err
+}
+
+// WatchAgain calls Channel.Watch on a sub-channel that the party watches
+// already (it waits until the first call has registered the channel with the
+// watcher).  The call is expected to fail; its error is returned.  nil means
+// that the second call did not return within the limit.
+func (p *Party) WatchAgain(ch *client.Channel, limit time.Duration) (error, bool) {
+	deadline := time.Now().Add(limit)
+	for {
+		p.mu.Lock()
+		ok := p.subWatched[ch.ID()]
+		p.mu.Unlock()
+		if ok {
+			break
+		}
+		if time.Now().After(deadline) {
+			return nil, false
+		}
+		time.Sleep(time.Millisecond)
+	}
+	res := make(chan error, 1)
+	go func() { res <- ch.Watch(adjHandler{p}) }()
+	select {
+	case err := <-res:
+		return err, true
+	case <-time.After(limit):
+		return nil, true
+	}
 }
 
 type adjHandler struct{ p *Party }
@@ -367,7 +404,17 @@ func (p *Party) WaitChannel(id channel.ID, limit time.Duration) *client.Channel 
 
 // Close shuts the party down.
 func (p *Party) Close() {
-	_ = p.Client.Close()
+	// Client.Close waits for locks of the party's channels and watcher; on a
+	// tree in which one of them leaked, the verdict of the case (already
+	// decided by then) must still be reported, so the wait is bounded.
+	closed := make(chan struct{})
+	go func() { defer close(closed); _ = p.Client.Close() }()
+	select {
+	case <-closed:
+	case <-time.After(5 * time.Second):
+		p.CloseHung.Store(true)
+		return
+	}
 	select {
 	case <-p.handleDone:
 	case <-time.After(5 * time.Second):
